@@ -18,6 +18,8 @@ RULE = ("square matrices of order 1..8 over Rat/f64/Complex: dense, sparse-patte
         "distinct = distinct executor line; non-trivial = order >= 2")
 TRUSTED = c01.TRUSTED
 ASSUMPTIONS = ["Rust semantics of Vec/usize as modelled", "float accuracy of det/inverse is searched, not proved",
+               "nonsingular (inverse half) is decided exactly (Fraction elimination; over Q(i) for Complex<f64>); exactly singular Complex draws are redrawn; "
+               "a float matrix with numpy cond_inf(A) > 1e15 is excused ONLY a non-finite inverse (counted in measured); finite answers are judged in full",
                "'matrix unchanged' is observed by the executor (snapshot before/after); a value model satisfies it vacuously",
                "the theorems assume FieldLaws + PivLaws of the element arithmetic; both are proved for Qc, R, C = R[i] and mathcomp's rat (not for floats, which are no field)"]
 UNPROVED = ["round two: determinant_product_error (computed det = +-prod u_ii (1+theta), |theta| <= gamma_n) and inverse_backward_error (each column of the computed inverse is an exact column of (A+dA_j)^-1) in the standard rounding model; the growth factor is not bounded -- f64/Complex accuracy itself is tie + search",
@@ -135,7 +137,10 @@ def generate(rng, tier):
                 for _ in range(20):
                     A = c01.gen_matrix(g, n, fam, 'f64')
                     if c01.nonsingular(A, n): break
-                if elt == 'cplx': A = [complex(x, c01.fval(g) if g.chance(1, 2) else 0.0) for x in A]
+                if elt == 'cplx':
+                    # imaginary parts added to a nonsingular real matrix can make it exactly singular over C: redraw them
+                    A = c01.cplx_nonsingular_draw(lambda: [complex(x, c01.fval(g) if g.chance(1, 2) else 0.0) for x in A], n)
+                    if A is None: continue
                 for kind in ("det", "inverse"):
                     cases.append(mk(elt, kind, n, A, "%s-%s-%s" % (elt, fam, kind), n >= 2))
     # Complex<f64> entries on the axes (columns of a real nonsingular matrix times units 1, -1, i, -i): see driver/c01.py
@@ -233,7 +238,7 @@ def gen_special(rng, tier):
         for kind in ("det", "inverse"):
             cases.append(mk('f64', kind, n, A, "f64-neg-zero-" + kind, n >= 2))
     # (s4) magnitudes: the whole matrix scaled by 2^+-k.  inverse: k = 200..900 (f64, half of them beyond 2^+-512 where the square of an entry leaves the range), 100..300 (Complex, inside the range where
-    # re^2+im^2 is normal); determinant: k*n <= 960 so that the exact determinant (scaled by 2^(+-k n)) is a normal number
+    # re^2+im^2 is normal); determinant: k*n <= 900 (Complex: 450) so that the exact determinant (scaled by 2^(+-k n)) is a normal number
     g = rng.fork("extreme-scale")
     for t in range(36 if quick else 240):
         n = 1 + (t % 6)
@@ -246,7 +251,9 @@ def gen_special(rng, tier):
         sg = 1 if g.chance(1, 2) else -1
         ki = g.range(100, 300) if cplx else (g.range(520, 900) if t % 2 == 0 else g.range(200, 519))   # beyond 2^+-512 squares leave the range
         kd = min(ki, 900 // n) if not cplx else min(ki, 450 // n)
-        if cplx: A = [complex(x, c01.fval(g) if g.chance(1, 2) else 0.0) for x in A]
+        if cplx:
+            A = c01.cplx_nonsingular_draw(lambda: [complex(x, c01.fval(g) if g.chance(1, 2) else 0.0) for x in A], n)
+            if A is None: continue
         elt = 'cplx' if cplx else 'f64'
         cases.append(mk(elt, "inverse", n, [x * 2.0 ** (sg * ki) for x in A], "%s-scaled-2^k-inverse" % elt, n >= 2))
         cases.append(mk(elt, "det", n, [x * 2.0 ** (sg * kd) for x in A], "%s-scaled-2^k-det" % elt, n >= 2))
@@ -276,7 +283,9 @@ def gen_special(rng, tier):
                     if fam == "sparse": A = [(x if g.chance(1, 3) else 0.0) for x in A]
                     if c01.nonsingular(A, n): break
                 if A is None or not c01.nonsingular(A, n): continue
-                if elt == 'cplx': A = [complex(x, (c01.fval(g) if g.chance(1, 2) else 0.0) if x != 0 else 0.0) for x in A]
+                if elt == 'cplx':
+                    A = c01.cplx_nonsingular_draw(lambda: [complex(x, (c01.fval(g) if g.chance(1, 2) else 0.0) if x != 0 else 0.0) for x in A], n)
+                    if A is None: continue
                 for kind in ("det", "inverse"):
                     cases.append(mk(elt, kind, n, A, "%s-%s-%s" % (elt, fam, kind), n >= 2))
     # sparse-patterned exact: includes singular patterns (zero determinant must be reported as exactly zero)
@@ -359,9 +368,12 @@ def cplx_exact_pivots(A, n):
 def finding_key(case, desc, items):
     """cause key of a failure, decided from the INPUT (and the exact pivots it leads to), never from the mere fact of failing:
     `cplx-sqmod-range` iff the element type is Complex<f64> and some input entry or some exact pivot z has re^2 + im^2 outside the
-    normal f64 range (underflows to 0/subnormal, or overflows)."""
+    normal f64 range (underflows to 0/subnormal, or overflows) AND the failure is one of the documented symptoms of that cause: a
+    non-finite or inaccurate determinant, non-finite or inaccurate entries of the inverse (A*inv / inv*A off the identity).  A panic
+    or an inverse of the wrong shape is not explained by unscaled squares and stays a violation."""
     m = case.meta
     if case.elt != 'cplx' or m.get("bad") or "A" not in m: return None
+    if not ("differs from the identity" in desc or "complex determinant" in desc): return None
     A, n = m["A"], m["n"]
     try:
         if any(sqmod_out_of_range(z.real, z.imag) for z in A): return "cplx-sqmod-range"
@@ -386,6 +398,12 @@ def lu_oracle(items, n, A):
     if sorted(sigma) != list(range(n)): return "the permutation matrix is not a permutation"
     inv = sum(1 for i in range(n) for j in range(i + 1, n) if sigma[i] > sigma[j])
     if inv % 2 != piv % 2: return "pivots=%d but the permutation has parity %d" % (piv, inv % 2)
+    # partial pivoting by magnitude: every multiplier is a quotient by the largest entry of its sub-column, whatever the tie-break
+    # (exact here: the factorisation is judged at Rat only; a zero sub-column is skipped and leaves zeros below the diagonal)
+    for i in range(n):
+        for j in range(i):
+            if abs(LU[i*n+j]) > 1: return "multiplier L[%d][%d] = %s has magnitude > 1: the pivot was not the largest entry of its sub-column" % (i, j, LU[i*n+j])
+    STATS["multipliers_checked"] = STATS.get("multipliers_checked", 0) + n * (n - 1) // 2
     L = [(LU[i*n+j] if j < i else (Fraction(1) if i == j else Fraction(0))) for i in range(n) for j in range(n)]
     U = [(LU[i*n+j] if j >= i else Fraction(0)) for i in range(n) for j in range(n)]
     PA = [A[sigma[i]*n+j] for i in range(n) for j in range(n)]
@@ -424,19 +442,23 @@ def oracle(case, items):
                 return "complex determinant %r differs from exact (%s, %s) beyond 1e-10*min(prod row sums, prod column sums)=%s" % (v, ffmt(dr), ffmt(di), ffmt(scale))
         return None
     if kind == "inverse":
-        if exact and d == 0:
+        # singular input (exact test; over Q(i) for Complex<f64>: a nonsingular real matrix plus imaginary parts can be exactly
+        # singular) is outside the quantifier of the inverse half
+        if (d == 0) if exact else c01.cplx_singular(A, n):
             STATS["inverse_singular_skipped"] += 1
-            return None       # singular: outside the quantifier
+            return None
         if items[-1][0] == 'P':
             if exact: return "inverse panicked (%s) on a nonsingular matrix" % items[-1][1]
-            # Complex<f64> (round four): a panic is a failure as soon as the exact complex determinant is non-zero
-            # (float division never panics; an index or guard panic on a nonsingular matrix is not "singular input")
-            try:
-                if cdet_exact(A, n) != (0, 0): return "inverse panicked (%s) on a Complex matrix whose exact determinant is non-zero" % items[-1][1]
-            except (OverflowError, ValueError): pass
-            return None
+            # float division never panics; an index or guard panic on a nonsingular matrix is not "singular input"
+            return "inverse panicked (%s) on a Complex matrix whose exact determinant is non-zero" % items[-1][1]
         (r, c, X), _ = parse_items_mat(items, 0, elt)
         if (r, c) != (n, n): return "inverse has shape %dx%d" % (r, c)
+        if elt != 'rat' and not all(isfinite(v) for v in X) and c01.cond_inf(A, n) > 1e15:
+            # singular to working precision (numpy cond_inf(A) > 1e15) although the exact determinant is not 0: a pivot may cancel to
+            # exactly 0 in binary64 and the inverse is then inf/nan for any LU code.  Only a NON-FINITE answer is excused (counted);
+            # a finite inverse of such a matrix is judged below like any other.
+            STATS["inverse_numerically_singular_skipped"] = STATS.get("inverse_numerically_singular_skipped", 0) + 1
+            return None
         STATS["inverse_identity_checked"] += 1
         I1 = matmul(A, X, n, n, n); I2 = matmul(X, A, n, n, n)
         for P, nm in ((I1, "A*inv"), (I2, "inv*A")):
@@ -496,5 +518,7 @@ def extra_coverage():
                          "exact_determinants_zero(singular)": STATS["det_zero"], "exact_determinants_nonzero": STATS["det_nonzero"],
                          "two_sided_inverse_identities_checked": STATS["inverse_identity_checked"],
                          "inverse_on_singular_input(outside quantifier)": STATS["inverse_singular_skipped"],
+                         "inverse_non_finite_on_cond_inf>1e15(numerically singular, skipped)": STATS.get("inverse_numerically_singular_skipped", 0),
+                         "lu_multipliers_checked(|l_ij|<=1)": STATS.get("multipliers_checked", 0),
                          "P*A=L*U_checked_on_implementation": STATS["lu_factorisations_checked"],
                          "cases_by_order": {str(k): v for k, v in sorted(STATS["order"].items())}}}
